@@ -118,7 +118,15 @@ def r10_2(ctx, R, ms):
                 from_item = bool(vs) and all(is_item(x) for x in vs)
                 v = vs[0] if vs else v
             ctx.ob("R10.2", b, "pushed-value-is-the-pulled-item@%s" % _site_label(b, pbb), from_item, b.loc(pbb), expr_str(v))
-        lds = live_drops(ctx, b, lambda t: t["k"] == "alias" and re.search(r"Stream::Item$|TryStream::Ok$", t["name"]) is not None)
+        # the upstream's item type: the associated type of a type PARAMETER (the item of the crate's own inner queue, which an
+        # inlined generic helper names `<FuturesUnorderedBounded<F> as Stream>::Item`, is an output, not an upstream item)
+        def _is_up_item(t):
+            if not (t["k"] == "alias" and re.search(r"Stream::Item$|TryStream::Ok$", t["name"]) is not None):
+                return False
+            a0 = (t.get("args") or [None])[0]
+            at = ctx.facts.types.get(a0) if isinstance(a0, str) else None
+            return at is None or at.get("k") in ("param", "alias")
+        lds = live_drops(ctx, b, _is_up_item)
         ctx.ob("R10.2", b, "no-live-drop-of-upstream-item", not lds, d_loc(b), "; ".join(place_str(p) for _, p, _ in lds if p))
 
 
@@ -153,7 +161,20 @@ def r10_3(ctx, R, ms):
             if e[0] == "call" and "FromResidual" in (e[1] or ""):
                 src = e[2][0]
                 ok = src[0] == "proj" and src[2][:2] == ("@Break", ".0") and src[1][0] == "call" and src[1][3] in m.branches
-                ctx.ob("R10.3", b, "returned-error-is-the-upstream-residual", ok, b.loc(rb), expr_str(src))
+                if not ok:
+                    # the residual is that of a `?` on an inlined helper's Result: along every path returning here it must
+                    # unwrap to the upstream poll's own error
+                    from lib_flow import PathEval
+                    vs = []
+                    for path, ev in paths:
+                        if rb not in path or not simulate(ev)[0]:
+                            continue
+                        r_ = PathEval(b, path).local_expr(0)
+                        if r_[0] == "call" and "FromResidual" in (r_[1] or ""):
+                            vs.append(r_)
+                    if vs and all(_peels_to_upstream_error(m, v) for v in vs):
+                        ok, src = True, vs[0]
+                ctx.ob("R10.3", b, "returned-error-is-the-upstream-residual", ok, b.loc(rb), expr_str(src)[:300])
             elif _explicit_err(e) is not None:
                 src = _explicit_err(e)
                 ok = _err_src_ok(m, src)
@@ -174,6 +195,31 @@ def r10_3(ctx, R, ms):
                 ctx.ob("R10.3", b, "returned-error-is-the-upstream-residual", ok, b.loc(rb), expr_str(src))
         # inner outputs (Result) are forwarded unchanged: covered by RET(Forward)/RET(Some) provenance in R10.4
     ctx.floor("R10.3", "try-adapters", n, 2)
+
+
+def _peels_to_upstream_error(m, e, depth=0):
+    """e is the upstream poll's own error, possibly re-wrapped on the way: from_residual(x), branch(x)@Break.0, Err{x}, x@Err.0."""
+    if depth > 8:
+        return False
+    if e[0] == "ref":
+        return _peels_to_upstream_error(m, e[1], depth + 1)
+    if e[0] == "call" and "FromResidual" in (e[1] or "") and e[2]:
+        return _peels_to_upstream_error(m, e[2][0], depth + 1)
+    if e[0] == "call" and re.search(r"Try>::branch$", e[1] or "") and e[2]:
+        return _peels_to_upstream_error(m, e[2][0], depth + 1)
+    if e[0] == "agg" and e[1].endswith("Result::Err") and e[2]:
+        return _peels_to_upstream_error(m, e[2][0], depth + 1)
+    if e[0] == "proj":
+        if e[1][0] == "call" and e[1][3] in m.up_sites:
+            # the poll's Break residual (`poll?`) or the Err payload of its Ready(Some(item))
+            return e[2][-2:] == ("@Err", ".0") or e[2][:2] == ("@Break", ".0")
+        if e[1][0] == "call" and e[1][3] in m.branches and e[2][:2] == ("@Break", ".0"):
+            return True
+        if e[2][:2] in (("@Break", ".0"), ("@Err", ".0")):
+            rest = e[2][2:]
+            inner = e[1] if not rest else e[1]
+            return _peels_to_upstream_error(m, inner, depth + 1)
+    return False
 
 
 def _err_src_ok(m, src):
